@@ -115,6 +115,10 @@ def twin(lang):
     return _y.safe_dump(d, sort_keys=False)
 
 
+# the debugging dump <library>.json is an output file like any other; the .log file records absolute paths of the run
+C07_SKIP = (".log",)
+
+
 def guarded_small():
     """libs.SMALL_CXX once more, with the class under a preprocessor condition and literalinclude: the helper text made for a
     class then differs between two libraries that agree on every name."""
@@ -128,7 +132,25 @@ def guarded_small():
     return _y.safe_dump(d, sort_keys=False)
 
 
+# a struct wrapped as a Python class: the generated constructor's parameters carry references to other nodes
+STRUCT_CLASS = """\
+library: Spt
+language: c
+cxx_header: spt.h
+options:
+  wrap_python: true
+  wrap_lua: false
+  PY_struct_arg: class
+  PY_array_arg: list
+declarations:
+- decl: struct Point { int x; double y; int *ids +dimension(x); };
+- decl: double norm(const Point *p)
+- decl: void shift(Point *p +intent(inout), double by)
+"""
+
+
 ALPHABET = [
+    ("structclass", STRUCT_CLASS, []),
     ("csmall", libs.SMALL_C, []),
     ("small", libs.SMALL_CXX, []),
     ("small-guarded", guarded_small(), []),
@@ -211,7 +233,7 @@ def history_case(args):
     else:
         state = r.value
         last = os.path.join(workdir, "s%d" % (len(history) - 1), "out")
-        got = isolate.read_tree(last)
+        got = isolate.read_tree(last, skip_ext=C07_SKIP)
         want = fresh[history[-1]]
         if got != want:
             err = "\n".join(isolate.diff_trees(want, got, limit=2))
@@ -227,7 +249,7 @@ def fresh_output(args):
     r = isolate.call_in_child(run_history, ((workdir, [0], [(name, text, extra)]),), timeout=120)
     if r.status != "ok":
         raise RuntimeError("fresh generation of %s failed: %s %s" % (name, r.exc, r.msg))
-    tree = isolate.read_tree(os.path.join(workdir, "s0", "out"))
+    tree = isolate.read_tree(os.path.join(workdir, "s0", "out"), skip_ext=C07_SKIP)
     shutil.rmtree(workdir, ignore_errors=True)
     return tree
 
@@ -262,7 +284,7 @@ def cli_run(args):
     if p.returncode != 0:
         shutil.rmtree(workdir, ignore_errors=True)
         return ("fail", p.stderr[-400:])
-    tree = isolate.read_tree(os.path.join(workdir, "out"))
+    tree = isolate.read_tree(os.path.join(workdir, "out"), skip_ext=C07_SKIP)
     if absolute:
         # setup.py embeds the output path: neutralise the one legitimate difference
         for k in list(tree):
@@ -320,7 +342,7 @@ def patched_run(args):
     if r.status != "ok":
         shutil.rmtree(workdir, ignore_errors=True)
         return ("fail", "%s %s" % (r.exc, r.msg))
-    tree = isolate.read_tree(os.path.join(workdir, "out"))
+    tree = isolate.read_tree(os.path.join(workdir, "out"), skip_ext=C07_SKIP)
     shutil.rmtree(workdir, ignore_errors=True)
     return ("ok", tree)
 
@@ -375,7 +397,7 @@ def run(ctx):
     # ---- other dimensions (fresh interpreters)
     cbase = ctx.subdir("c")
     # by name, so that extending the alphabet cannot silently drop a library from this part
-    want = ["csmall", "small", "other", "fwd", "hdrs"] + ([] if quick else ["cstr", "small-as-c-opts", "small-guarded"])
+    want = ["csmall", "small", "other", "fwd", "hdrs", "structclass"] + ([] if quick else ["cstr", "small-as-c-opts", "small-guarded"])
     sel = [a for nm in want for a in alphabet if a[0] == nm]
     assert len(sel) == len(want)
     jobs = []
